@@ -43,6 +43,15 @@ def check_has_all(cx: Cx, q: str, field: str):
             v = p.last.data.get('value')
             iters = [e for e in p.events if e.kind == 'iter']
             loops = [e for e in p.events if e.kind == 'loop']
+            # not any(<type> not in <store> for <type> in <template>)  ==  all(<type> in <store> ...)
+            from sa.terms import BoolT as _BT, FNot as _FN
+            if isinstance(v, _BT) and isinstance(v.f, _FN) and isinstance(v.f.f, ATruthy) and isinstance(v.f.f.t, App) and v.f.f.t.fn == 'any':
+                g = v.f.f.t.args[0] if v.f.f.t.args else None
+                d = getattr(g, 'detail', None)
+                if isinstance(g, Fresh) and d is not None and len(d.gens) == 1 and strip_versions(d.gens[0][1]) == va and not d.gens[0][2] \
+                        and isinstance(d.elt, _BT) and d.elt.f == f_not(AIn(d.gens[0][0], comps)):
+                    seen.add('all')
+                    continue
             if isinstance(v, App) and v.fn == 'all':
                 # all(<type> in <store> for <type> in <template>)
                 g = v.args[0] if v.args else None
